@@ -706,6 +706,7 @@ func ruleSignParity(w *World, r *RuleResult) {
 	type be struct {
 		hdr   int64
 		minus bool
+		plus  bool // the token is '+': a sign that must leave the run's sign alone
 		args  []*T
 		pos   string
 	}
@@ -715,15 +716,18 @@ func ruleSignParity(w *World, r *RuleResult) {
 			continue
 		}
 		last := p.Events[len(p.Events)-1]
-		minus := false
+		minus, plus := false, false
 		pos := w.Pos(f1.Pos())
 		for _, cd := range p.Conds {
 			if cd.Atom.Op == "eq" && cd.Atom.A[1].Op == "str" && cd.Atom.A[1].S == "-" && cd.Val {
 				minus = true
 				pos = w.Pos(cd.Pos)
 			}
+			if cd.Atom.Op == "eq" && cd.Atom.A[1].Op == "str" && cd.Atom.A[1].S == "+" && cd.Val {
+				plus = true
+			}
 		}
-		bes = append(bes, be{last.Res.C, minus, last.Args, pos})
+		bes = append(bes, be{last.Res.C, minus, plus, last.Args, pos})
 	}
 	found := false
 	d := newDedup(r)
@@ -732,8 +736,8 @@ func ruleSignParity(w *World, r *RuleResult) {
 			continue
 		}
 		for _, o := range bes {
-			if o.minus || o.hdr != m.hdr || len(o.args) != len(m.args) {
-				continue
+			if o.minus || !o.plus || o.hdr != m.hdr || len(o.args) != len(m.args) {
+				continue // compare '-' with '+': the two sign tokens of one run
 			}
 			for i := range m.args {
 				if m.args[i].Key() == o.args[i].Key() {
